@@ -50,12 +50,12 @@ type Ctl struct {
 	failLabel string // only count statements of this label ("" = all)
 	tick      time.Duration
 	// gates
-	gated   map[string]bool          // labels that stop at gates
+	gated    map[string]bool // labels that stop at gates
 	multi    map[string]bool
 	parkedAt map[string][]chan struct{}
-	parked  map[string]chan struct{} // label -> release channel
-	where   map[string]string
-	txToken chan struct{} // serialises transactions
+	parked   map[string]chan struct{} // label -> release channel
+	where    map[string]string
+	txToken  chan struct{} // serialises transactions
 	// spin guard: a labelled process that issues more than spinLimit statements without the harness
 	// resetting the counter is parked (it is busy-looping; under synctest it would never block)
 	spinLimit int
